@@ -159,6 +159,7 @@ class GroupScenario:
         world.server = cl
         self.cluster = cl
         cl.heartbeat_in_completing = p.get("hb_completing", 0)
+        cl.group_authorized = not p.get("group_unauthorized", False)  # ACL state: every group API answers GROUP_AUTHORIZATION_FAILED
         world.app_eager = p.get("baseline", "net") == "app"
         world.p_enabled = bool(p.get("p_enabled", True))
         world.k_mid = bool(p.get("k_mid", False))
@@ -297,6 +298,9 @@ class GroupScenario:
         except Exception as e:  # noqa: BLE001 - a failed bootstrap is outside the properties
             self.alive[i] = False
             self.rec("start-failed", i, type(e).__name__)
+            if p.get("stop_after_failed_start"):
+                # the usual try/finally pattern: stop() is called although start() raised
+                await self.do_stop(i, c)
             return
         self.started.add(i)
         self.rec("started", i)
